@@ -151,8 +151,8 @@ def invocations_for(base):
 
 def plan(U, bases, tier, sd):
     """[(input recipe, [Inv...])]: the core invocations of the input's kind + a rotating selection of the others (every
-    invocation is used over the inputs of a kind): 2 others in quick, 6 in thorough for file system images; every
-    invocation for undo files, qcow2 images, external journals, raw bytes and (thorough) the C13 states."""
+    invocation is used over the inputs of a kind): 2 others in quick, 5 in thorough for file system images (C13 states:
+    1 / 8); every invocation for undo files, qcow2 images, external journals and raw bytes."""
     out = []
     rot = collections.Counter()
     short_used = 0
@@ -171,17 +171,17 @@ def plan(U, bases, tier, sd):
             pass
         if base.info.get("profile") == "mmp":       # a read-write open of an MMP file system sleeps 2 x interval + 1 = 11 s
             invs = [i for i in invs if not (i.tool == "e2fsck" and i.mode in ("p", "y"))]
-        if tier == "thorough" and base.kind not in ("fs", "jrn"):
+        if tier == "thorough" and base.kind not in ("fs", "jrn", "c13"):
             out.append((u, invs))
             continue
         core = [i for i in invs if i.core]
         rest = [i for i in invs if not i.core]
         pick = list(core)
-        nextra = (6 if tier == "thorough" else 2) if base.kind in ("fs", "jrn") else (1 if base.kind == "c13" else len(rest))
+        nextra = (5 if tier == "thorough" else 2) if base.kind in ("fs", "jrn") else ((8 if tier == "thorough" else 1) if base.kind == "c13" else len(rest))
         for _ in range(min(nextra, len(rest))):
             pick.append(rest[rot[base.kind] % len(rest)])
             rot[base.kind] += 1
-        if base.kind == "c13":          # many states: the core is split over them
+        if base.kind == "c13" and tier == "quick":          # many states: the core is split over them
             h = rot["c13core"]
             rot["c13core"] += 1
             pick = [core[h % len(core)], core[(h + 3) % len(core)], core[(h + 5) % len(core)]] + pick[len(core):]
